@@ -49,9 +49,8 @@ package codec
 //@ ignorepkg sync/atomic
 //@ # ---- channel-set updates: every state drained from the update channel is stored under its own,
 //@ # consecutive sequence number (the k-th one received under old seqNum + k + 1); earlier states
-//@ # are kept. The states the updater sends only hold data types the engine knows (assumed of the
-//@ # received values; Update builds them from the channel service).
-//@ spec func stateKnown(s state) bool = forall k channel.Key :: __in(s.keyDataTypes, k) ==> knownType(s.keyDataTypes[k])
+//@ # are kept. Nothing is assumed about the data types in them: a channel's type is a free-form
+//@ # string, and since fix 20354d9 the decoder answers an unknown one with an error.
 //@ func (c *Codec) processUpdates()
 //@   overflow off
 //@   requires c.mu.states != nil
@@ -60,17 +59,14 @@ package codec
 //@   ensures  forall q uint32 :: old(__in(c.mu.states, q)) ==> __in(c.mu.states, q) && __eq(c.mu.states[q], old(c.mu.states[q]))
 //@   ensures  forall q uint32 :: old(c.mu.seqNum) < q && q <= c.mu.seqNum ==> __in(c.mu.states, q) && __eq(c.mu.states[q], __recvval[state](old(__recvs()) + int(q) - int(old(c.mu.seqNum)) - 1))
 //@   ensures  forall q uint32 :: __in(c.mu.states, q) ==> q <= c.mu.seqNum
-//@   ensures  (forall q uint32 :: old(__in(c.mu.states, q)) ==> stateKnown(old(c.mu.states[q]))) ==> (forall q uint32 :: __in(c.mu.states, q) ==> stateKnown(c.mu.states[q]))
 //@   ensures  __eq(c.mu.states, old(c.mu.states))
 //@   modifies c.mu.states, &c.mu
-//@   assume_after "s := <-c.mu.updates" stateKnown(s)
 //@   loop 0 modifies c.mu.states, &c.mu
 //@   loop 0 invariant __eq(c.mu.states, old(c.mu.states))
 //@   loop 0 invariant int(c.mu.seqNum) == int(old(c.mu.seqNum)) + __recvs() - old(__recvs()) && __recvs() >= old(__recvs())
 //@   loop 0 invariant forall q uint32 :: old(__in(c.mu.states, q)) ==> __in(c.mu.states, q) && __eq(c.mu.states[q], old(c.mu.states[q]))
 //@   loop 0 invariant forall q uint32 :: old(c.mu.seqNum) < q && q <= c.mu.seqNum ==> __in(c.mu.states, q) && __eq(c.mu.states[q], __recvval[state](old(__recvs()) + int(q) - int(old(c.mu.seqNum)) - 1))
 //@   loop 0 invariant forall q uint32 :: __in(c.mu.states, q) ==> q <= c.mu.seqNum
-//@   loop 0 invariant (forall q uint32 :: old(__in(c.mu.states, q)) ==> stateKnown(old(c.mu.states[q]))) ==> (forall q uint32 :: __in(c.mu.states, q) ==> stateKnown(c.mu.states[q]))
 //@ ignore func (c *Codec) panicIfNotUpdated()
 //@ spec func decodeBudget(c *Codec, reader io.Reader) int = 1048576 + 2*binary.SpecConsumed[c.reader]
 //@ # reads exactly n bytes; the buffer only grows by as much as has already arrived
@@ -87,15 +83,12 @@ package codec
 //@   loop 0 invariant forall x *binary.Reader :: x != c.reader ==> binary.SpecConsumed[x] == old(binary.SpecConsumed[x])
 //@   loop 0 modifies binary.SpecConsumed
 //@ spec func decodeBudgetN(c *Codec, n int64) int = 1048576 + 2*binary.SpecConsumed[c.reader]
-//@ spec func knownType(dt telem.DataType) bool = dt.IsVariable() || dt.Density() != 0
 //@ func (c *Codec) DecodeStream(reader io.Reader) (fr framer.Frame, err error)
 //@   untrusted_input
 //@   pragma alloc_budget decodeBudget
 //@   pragma abstract decodeFlags
 //@   pragma wraps uint64 -> int64 reinterpretation of timestamps and alignments read from the wire
 //@   requires c.reader != nil
-//@   # the negotiated channel set only holds data types the engine knows (checked when channels are created)
-//@   requires forall q uint32 :: __in(c.mu.states, q) ==> stateKnown(c.mu.states[q])
 //@   # codec invariant: no state is stored beyond the current sequence number
 //@   requires c.mu.states != nil && (forall q uint32 :: __in(c.mu.states, q) ==> q <= c.mu.seqNum)
 //@   modifies binary.SpecConsumed, c.mu.states, &c.mu
